@@ -147,6 +147,17 @@ func adversarial(sizes []int) []advCase {
 		sb.WriteString("}")
 		out = append(out, advCase{"conflicting aliases", n * 2, sb.String()})
 	}
+	for _, n := range sizes {
+		// two selections of one field under one response name whose arguments are equal literals nested n
+		// deep (objects, lists, both in turn; the same with one leaf different): comparing them is linear
+		for _, shape := range [][3]string{{"{k:", "}", "objects"}, {"[", "]", "lists"}, {"[{k:", "}]", "lists of objects"}} {
+			v := strings.Repeat(shape[0], n) + "1" + strings.Repeat(shape[1], n)
+			w := strings.Repeat(shape[0], n) + "2" + strings.Repeat(shape[1], n)
+			out = append(out, advCase{"equal deep " + shape[2] + " as arguments under one response name", n, "{q{a:f(x:" + v + "){a} a:f(x:" + v + "){a}}}"})
+			out = append(out, advCase{"deep " + shape[2] + " differing in the leaf under one response name", n, "{q{a:f(x:" + v + "){a} a:f(x:" + w + "){a}}}"})
+			out = append(out, advCase{"equal deep " + shape[2] + " as directive arguments", n, "{q{a @skip(if:" + v + ") a @skip(if:" + v + ")}}"})
+		}
+	}
 	return out
 }
 
